@@ -40,6 +40,7 @@ def run(tier, rep):
     pool = stream_corpus.payload_pool(bundle, "c05", 80)
     pool += stream_corpus.syncy_payloads(rnd, 40)
     crcpool = stream_corpus.crc_targeted_payloads(bundle, rnd)
+    von, voff = stream_corpus.validate_values()
     tr = fe.Traces(rep)
     n = 90 if quick else 1000
     for i in range(n):
@@ -70,7 +71,7 @@ def run(tier, rep):
         handler = (i // 3) % 2 == 0
         # in every fourth log-mode run the user's handler raises at some of its calls
         hr = set(rnd.sample(range(sum(dm)), rnd.randint(1, sum(dm)))) if (quit == 1 and handler and i % 4 == 1) else None
-        tr.add(data, kind=rnd.choice(["bytesio", "scripted", "buffered"]), validate=1, parsed=True, quit=quit, handler=handler,
+        tr.add(data, kind=rnd.choice(["bytesio", "scripted", "buffered"]), validate=rnd.choice(von), parsed=True, quit=quit, handler=handler,
                rnd=rnd, hraise=hr, want=[f for f, d in zip(sent, dm) if not d], ndam=sum(dm), nframes=k)
     verdicts = tr.judge()
     for tid, v in verdicts.items():
